@@ -751,6 +751,12 @@ def run(tier):
     rng = C.SplitMix64(res.seed)
     n_random, maxn, n_degen = (1000, 40, 60) if tier == "quick" else (2000, 80, 150)
     cases = corpus_cases() + shipped_cases(tier) + random_cases(rng, n_random, maxn)
+    # graphs without edges (the smallest connected graph is a single node): doHOLA returns at once and must hand back every node with its
+    # original size and position (seeded change C14-8 left the layout padding on them)
+    lrng = rng.fork()
+    for _ in range(6 if tier == 'quick' else 40):
+        cases.append({'family': 'lone_node', 'nodes': [[lrng.below(50), lrng.range(-300, 300), lrng.range(-300, 300), lrng.range(5, 200), lrng.range(5, 200)]],
+                      'edges': [], 'opts': G.gen_opts(lrng) if lrng.chance(1, 2) else {'nodePaddingScalar': lrng.choice([0.1, 0.25, 0.5, 1.0])}})
     cases.sort(key=lambda c: 0 if c['family'].startswith('corpus:seeded_demo') else 1)      # stable: the demo inputs of stored seeded changes first
     degen = [G.gen_case(rng.fork(), 'degenerate_start', min(maxn, 30)) for _ in range(n_degen)]
     cases += degen
